@@ -181,6 +181,10 @@ func (b *bitstream) Next() error {
 
 	// Found the end of the file.
 	if c == -1 {
+		if !b.stack.empty() {
+			// The input ended before the container we're in did.
+			return &UnexpectedEOFError{b.pos - 1}
+		}
 		b.code = bitcodeEOF
 		return nil
 	}
@@ -1069,7 +1073,8 @@ func (b *bitstream) skip(n uint64) error {
 	b.pos += uint64(actual)
 
 	if err == io.EOF {
-		return nil
+		// The input ended before the value we're skipping did.
+		return &UnexpectedEOFError{b.pos}
 	}
 	if err != nil {
 		return &IOError{err}
